@@ -63,6 +63,13 @@ def gen_case(ctx, maxl=5, maxp=5, maxN=60):
     Yref = Y[ref, :]
     if rng.random() < 0.2:  # reference data independent of Y (bilinear map, not quadratic form)
         Yref = g.standard_normal((r, Ndat)) * rng.choice([1.0, 1e-6, 1e3])
+    elif rng.random() < 0.2:
+        # raw ADC counts stored in a narrow integer type (16-bit, or 24-bit in int32): products of two samples do
+        # not fit the record's own type
+        dt, top = rng.choice([(np.int16, 30000), (np.int32, 8_000_000), (np.int64, 8_000_000)])
+        Y = g.integers(-top, top + 1, size=(l, Ndat)).astype(dt)
+        Yref = Y[ref, :]
+        ctx.count(f"record_dtype_{np.dtype(dt).name}")
     return Y, Yref, p, ref
 
 
@@ -73,7 +80,7 @@ def correspondence(ctx):
         Y, Yref, p, ref = gen_case(ctx)
         l, Nd = Y.shape
         r = Yref.shape[0]
-        inp = {"Y": Rmat(Y), "Yref": Rmat(Yref), "p": p}
+        inp = {"Y": Rmat(Y.astype(float)), "Yref": Rmat(Yref.astype(float)), "p": p}
         for method, op in (("cov_mm", "hank_mm"), ("cov_R", "hank_R")):
             H, _ = bh(Y, Yref, p, method)
             M = flmat(ctx.model(op, **inp))
@@ -174,16 +181,17 @@ def oracle(ctx, scale):
         r = Yref.shape[0]
         for method, ind in (("cov_mm", _indep_mm), ("cov_R", _indep_R)):
             H, _ = bh(Y, Yref, p, method)
-            E = ind(Y, Yref, p)
+            E = ind(Y.astype(float), Yref.astype(float), p)
             ctx.oracle_cases += 1
             ctx.nontrivial.add(("oracle", method, l, r, p, Nd))
             if H.shape != E.shape or max_rel_err(H, E) > 1e-10:
                 ctx.violation(
                     f"entry-{method}",
                     f"{method}: matrix differs from the definition (rel err {max_rel_err(H, E):.2e})",
-                    {"Y": Y.tolist(), "Yref": Yref.tolist(), "p": p, "method": method},
+                    {"Y": Y.tolist(), "Yref": Yref.tolist(), "p": p, "method": method, "dtype": str(Y.dtype)},
                 )
         # bilinearity
+        Y, Yref = Y.astype(float), Yref.astype(float)
         g = ctx.nprng()
         Y2 = g.standard_normal(Y.shape)
         Yr2 = g.standard_normal(Yref.shape)
@@ -301,12 +309,13 @@ def replay(rec):
     inp = v["input"]
     print("replaying", v["sig"], "-", v["what"])
     if "Y" in inp:
+        dt = np.dtype(inp.get("dtype", "float64"))
         Y = np.array(inp["Y"], float)
         Yr = np.array(inp["Yref"], float)
         p = inp["p"]
         for method, ind in (("cov_mm", _indep_mm), ("cov_R", _indep_R)):
-            H, _ = bh(Y, Yr, p, method)
-            print(method, "rel err vs definition:", max_rel_err(H, ind(Y, Yr, p)))
+            H, _ = bh(Y.astype(dt), Yr.astype(dt), p, method)
+            print(method, f"(record dtype {dt}) rel err vs definition:", max_rel_err(H, ind(Y, Yr, p)))
     else:
         class C:  # minimal ctx
             oracle_cases = 0
